@@ -54,7 +54,7 @@ func AddrIn(scope string, host byte) Addr {
 // The password the credential corresponds to ("" with ok=false if none can verify) is returned.
 func GenAuthenticator(t *rapid.T, name string, kc map[string]string) (*Authenticator, string) {
 	pw := rapid.SampledFrom(Passwords).Draw(t, "password")
-	switch rapid.IntRange(0, 13).Draw(t, "authn_variant") {
+	switch rapid.IntRange(0, 14).Draw(t, "authn_variant") {
 	case 0:
 		return nil, ""
 	case 1:
@@ -80,6 +80,10 @@ func GenAuthenticator(t *rapid.T, name string, kc map[string]string) (*Authentic
 		// the keychain answers, but not with a bcrypt hash (the reference main.go's keychain returns "cisco")
 		kc[name] = "636973636f"
 		return &Authenticator{Type: AuthnBcrypt, Options: map[string]string{"key": name}}, ""
+	case 9:
+		// a well-formed hash with something behind it (a trailing newline from the tool that produced it,
+		// two hashes pasted together): valid hex, longer than a bcrypt hash
+		return &Authenticator{Type: AuthnBcrypt, Options: map[string]string{"hash": Hashes[pw] + rapid.SampledFrom([]string{"0a", "00", "0d0a", Hashes[pw]}).Draw(t, "hash_tail")}}, ""
 	default:
 		return BcryptAuth(pw), pw
 	}
